@@ -334,6 +334,11 @@ def proof_stage(ctx, extra_targets=()):
         res.update(ok=False, detail="translator: " + tr_out.strip())
     d_ok, d_out = lean_build(ctx, ["nucleo_model"])
     res["driver_ok"] = d_ok
+    if not d_ok:
+        # without the model driver nothing is compared: never a pass
+        errs = re.findall(r"error: ([^\n]*)", d_out)
+        res["ok"] = False
+        res["detail"] += " the model driver (lake build nucleo_model) does not build: " + ("; ".join(errs[:4]) or d_out[-400:])
     p_ok, p_out = lean_build(ctx, prop_modules(pid) + list(extra_targets))
     if not p_ok:
         errs = re.findall(r"error: (NucleoVerif/[^\n]*)", p_out)
